@@ -2,6 +2,7 @@
 import itertools
 import json
 import os
+import random
 import sys
 
 from common import VERIF, CorrResult, Failure, canon, enc_str, load_known_findings, run_check, use_repo
@@ -214,6 +215,11 @@ def correspond(rng, tier, driver):
         base = sc.gen_survivor_case(rng, allow_callable=rng.random() < 0.4) if j % 3 == 2 else \
             sc.gen_case(rng, allow_callable=True)
         cases.append(sc.add_tee(rng, base))
+    # run(inputs=..., before=<code>): the inputs are queued BEFORE the `before` code executes.  Own PRNG (derived from
+    # the seed) so that the streams above stay what they were
+    brng = random.Random("c15-before-%s" % os.environ.get("VERIF_SEED", "0"))
+    for _ in range(200 if tier == "quick" else 2500):
+        cases.append(sc.gen_before_case(brng))
     reals, lines = [], []
     for case in cases:
         real = sc.run_real(case)
@@ -232,6 +238,10 @@ def correspond(rng, tier, driver):
             res.count("kept:" + kind)
         for what in buffer_class(case):
             res.count(what)
+        for op in case["ops"]:
+            if op.get("before") is not None:
+                res.count("run(before=)" + ("+inputs=" if op.get("pre") is not None else "") +
+                          (":before-reads" if any(e[0] in ("r", "r0") for e in op["before"]) else ""))
         if sc.has_stale_route(case) and any(op["k"] in ("clear_input", "set_input") and
                                             (op["k"] == "clear_input" or op["arg"][0] in ("none", "callable"))
                                             for op in case["ops"]):
